@@ -102,7 +102,7 @@ class AbstractQueryableColumn(UnicodeMixin):
 
         used where you'd typically want to use python's `in` operator
         """
-        return WhereClause(str(self), InOperator(), item)
+        return WhereClause(str(self), InOperator(), [self._to_database(i) for i in item])
 
     def contains_(self, item):
         """
